@@ -306,6 +306,9 @@ class OptiWrapper(Opti):
             return MX(n, m)
         else:
             v = Opti.variable(self,n, m)
+            if domain!='real' and not np.all(np.array(evalf(MX(scale)))==1):
+                # the solver variable physical/scale would be the integer one
+                raise Exception("scale is not supported for variables with domain '%s'" % domain)
             if hasattr(Opti,'set_domain'):
                 Opti.set_domain(self, v, domain)
             else:
